@@ -16,6 +16,7 @@ package dspinner
 
 import (
 	"context"
+	"encoding/json"
 	"errors"
 	"fmt"
 	"sort"
@@ -27,6 +28,7 @@ import (
 	offline "github.com/ipfs/boxo/exchange/offline"
 	mdag "github.com/ipfs/boxo/ipld/merkledag"
 	ipfspin "github.com/ipfs/boxo/pinning/pinner"
+	"github.com/ipfs/boxo/pinning/pinner/dsindex"
 	cid "github.com/ipfs/go-cid"
 	ds "github.com/ipfs/go-datastore"
 	dsq "github.com/ipfs/go-datastore/query"
@@ -130,11 +132,12 @@ type c23Run struct {
 	p     *pinner
 	ids   map[string]int
 	quiet bool // no State event after complete calls (large runs)
+	stale int  // >= 0: plant a stale cross-mode cid index entry (fault Stale) at the next crash, record chosen by this number
 }
 
 func c23NewRun(nc int) *c23Run {
 	ctx := context.Background()
-	r := &c23Run{nc: nc, nodes: make([]ipld.Node, nc+1), cids: make([]cid.Cid, nc+1), rev: map[string]int{}, ids: map[string]int{}}
+	r := &c23Run{nc: nc, nodes: make([]ipld.Node, nc+1), cids: make([]cid.Cid, nc+1), rev: map[string]int{}, ids: map[string]int{}, stale: -1}
 	bst := blockstore.NewBlockstore(dssync.MutexWrap(ds.NewMapDatastore()))
 	r.dag = mdag.NewDAGService(bs.New(bst, offline.Exchange(bst)))
 	for i := 1; i <= nc; i++ {
@@ -377,6 +380,10 @@ func (r *c23Run) crashAndReopen(k2 int) int {
 	ctx := context.Background()
 	vEmit(M{"ev": "Crash"})
 	r.p.Close()
+	if r.stale >= 0 {
+		r.plantStale(r.stale)
+		r.stale = -1
+	}
 	n := -1
 	for {
 		r.d.dead, r.d.remaining = false, k2
@@ -401,6 +408,112 @@ func (r *c23Run) crashAndReopen(k2 int) int {
 	r.d.remaining = -1
 	r.state()
 	return n
+}
+
+// plantStale (fault Stale of the spec): while the pinner is down with the dirty flag set, the datastore
+// also holds an entry of the OTHER mode's cid index for one existing pin record (same cid, same pin id).
+func (r *c23Run) plantStale(sel int) {
+	ctx := context.Background()
+	if v, err := r.d.inner.Get(ctx, dirtyKey); err != nil || len(v) != 1 || v[0] != 1 {
+		return
+	}
+	res, err := r.d.inner.Query(ctx, dsq.Query{Prefix: pinKeyPath})
+	if err != nil {
+		panic(err)
+	}
+	es, _ := res.Rest()
+	var pins []*pin
+	for _, e := range es {
+		pp, err := decodePin(ds.NewKey(e.Key).BaseNamespace(), e.Value)
+		if err != nil || r.idNum(pp.Id, false) < 0 {
+			continue
+		}
+		pins = append(pins, pp)
+	}
+	if len(pins) == 0 {
+		return
+	}
+	sort.Slice(pins, func(i, j int) bool { return r.idNum(pins[i].Id, false) < r.idNum(pins[j].Id, false) })
+	pp := pins[sel%len(pins)]
+	other := pinCidDIndexPath
+	if pp.Mode == ipfspin.Direct {
+		other = pinCidRIndexPath
+	}
+	if err := dsindex.New(r.d.inner, ds.NewKey(other)).Add(ctx, pp.Cid.KeyString(), pp.Id); err != nil {
+		panic(err)
+	}
+	vEmit(M{"ev": "Stale", "id": r.idNum(pp.Id, false)})
+}
+
+// c23Directed: call histories chosen by the generator spec GenPinnerWrites (their last call can be stopped
+// while one cid has two pin records, or is an Update refused on a recursively pinned target).  Setup calls run
+// to completion; the last call is stopped after every one of its writes (k = 0..#writes-1; a call without
+// writes: crash when idle); reopen, optionally with a planted stale entry, optionally every cut of the recovery.
+type c23Dir struct {
+	H []c23Op `json:"h"`
+}
+
+func c23Directed(in []json.RawMessage, nc, staleEvery, second int) {
+	for hi, raw := range in {
+		var d c23Dir
+		if err := json.Unmarshal(raw, &d); err != nil || len(d.H) == 0 {
+			panic(fmt.Sprintf("bad directed history %s: %v", raw, err))
+		}
+		last := d.H[len(d.H)-1]
+		ref := c23NewRun(nc)
+		ref.quiet = true
+		wn := 0
+		for _, o := range d.H {
+			wn = ref.full(o)
+		}
+		ref.p.Close()
+		target := last.C
+		if last.Op == "Update" {
+			target = last.C2
+		}
+		follow := []c23Op{{Op: "Unpin", C: target, Flag: true}, {Op: "PinRec", C: target, Name: "b", Via: 1}, {Op: "PinDir", C: target, Name: ""},
+			{Op: "Update", C: target, C2: 3, Flag: true}}
+		nk := wn
+		if nk == 0 {
+			nk = 1
+		}
+		for k := 0; k < nk; k++ {
+			for _, stale := range []bool{false, true} {
+				if stale && (staleEvery <= 0 || (k+hi)%staleEvery != 0 || k < 1) {
+					continue // k = 0: nothing written, the dirty flag is not set
+				}
+				k2s := []int{-1}
+				for len(k2s) > 0 {
+					k2 := k2s[0]
+					k2s = k2s[1:]
+					r := c23NewRun(nc)
+					r.quiet = true
+					for _, o := range d.H[:len(d.H)-1] {
+						r.full(o)
+					}
+					if wn > 0 {
+						r.d.remaining = k
+						r.begin(last)
+						r.exec(last)
+					} else {
+						r.full(last)
+					}
+					if stale {
+						r.stale = k + hi
+					}
+					n := r.crashAndReopen(k2)
+					if second > 0 && (k+hi)%2 == 0 && k2 == -1 && n > 1 { // every cut of the recovery, for every other k
+						for x := 0; x < n; x++ {
+							k2s = append(k2s, x)
+						}
+					}
+					r.quiet = false
+					r.full(follow[(k+hi+len(k2s))%len(follow)])
+					r.p.Close()
+				}
+			}
+		}
+	}
 }
 
 func c23RandOp(rng interface{ Intn(int) int }, nc int) c23Op {
@@ -453,6 +566,10 @@ func TestVerifC23(t *testing.T) {
 	rng := vRand()
 	nc := 3
 	nhist, hlen, second := vEnvInt("C23_HIST", 3), vEnvInt("C23_LEN", 6), vEnvInt("C23_SECOND", 0)
+	if vEnvInt("C23_DIRECTED", 0) > 0 {
+		c23Directed(vIn(), nc, vEnvInt("C23_STALE_EVERY", 2), second)
+		return
+	}
 	if n := vEnvInt("C23_BIG", 0); n > 0 {
 		c23Big(vEnvInt("C23_BIGPINS", 100), n)
 		return
